@@ -136,6 +136,7 @@ def reports_equal(a, b):
 
 class C12(OptEngineBase):
     PROPERTY = "C12"
+    SWEEP_MENU = {"stdout": STDOUT_FAULTS, "solver": SOLVER_FAULTS}
     TIERS = {
         "quick": {"runs": 1600, "budget_s": 75, "chunk": 8},
         "thorough": {"runs": 40000, "budget_s": 900, "chunk": 16},
